@@ -42,17 +42,18 @@ class Unit:
 
 
 class Request:
-    def __init__(self, source, fn=(), rec=(), enum=(), config="asbuilt", calls=False, overlay=None):
+    def __init__(self, source, fn=(), rec=(), enum=(), config="asbuilt", calls=False, overlay=None, files=()):
         self.source = source if os.path.isabs(source) else os.path.join(REPO, source)
         self.fn = tuple(fn)
         self.rec = tuple(rec)
         self.enum = tuple(enum)
+        self.files = tuple(files)  # regexes on the file holding the function body (default: any file under the root)
         self.config = config
         self.calls = calls
         self.overlay = overlay
 
     def ident(self):
-        return (self.source, self.fn, self.rec, self.enum, self.config, self.calls, self.overlay)
+        return (self.source, self.fn, self.rec, self.enum, self.config, self.calls, self.overlay, self.files)
 
 
 def _run(req, outdir):
@@ -67,6 +68,8 @@ def _run(req, outdir):
         cmd += ["--rec", p]
     for p in req.enum:
         cmd += ["--enum", p]
+    for p in req.files:
+        cmd += ["--file", p]
     if req.calls:
         cmd += ["--calls"]
     flags = compdb.flags_for(req.source, req.config)
